@@ -36,7 +36,7 @@ ASSUMPTIONS = [
     "back end's table (so every optimum is attained)",
     "bisection over real-valued objectives is excluded (documented as possibly non-terminating); real soft weights "
     "only with linear search",
-    "after an injected 'unknown' the optimiser may raise; restoration is then not demanded (the statement does not promise it)",
+    "after an injected 'unknown' the optimiser may raise; the assertion stack must be restored all the same",
     "termination bound per optimisation call: 4*|table| + 16 solver calls per goal",
 ]
 TIERS = {
@@ -143,6 +143,8 @@ def gen_plan(tape, cfg):
             ng = 1 if mode == "single" else tape.rint(1, 3, "ngoals")
             goals = [_gen_goal(tape, ctx, flavour, strategy, mode) for _ in range(ng)]
             o = {"op": "optimize", "mode": mode, "strategy": strategy, "goals": goals}
+            if mode == "pareto" and tape.chance(1, 4, "pareto.stop"):
+                o["stop_after"] = tape.rint(1, 2, "pareto.stop.k")
             prev = [j for j, po in enumerate(ops) if po["op"] == "optimize" and po["mode"] in ("single", "boxed")
                     and po["goals"][0]["kind"] == "maxsmt" and not po["goals"][0]["real_w"]
                     and "reuse" not in po]
@@ -502,12 +504,29 @@ def execute(plan, tape):
                     res = api(where, solver.lexicographic_optimize, pgoals, strategy=strategy,
                               allowed=(SolverReturnedUnknownResultError,))
                 else:
-                    res = api(where, lambda: list(solver.pareto_optimize(pgoals)),
-                              allowed=(SolverReturnedUnknownResultError,))
+                    stop_after = o.get("stop_after")
+
+                    def consume():
+                        # the caller may stop iterating early (the generator object is then dropped)
+                        out_ = []
+                        for item in solver.pareto_optimize(pgoals):
+                            out_.append(item)
+                            if stop_after and len(out_) >= stop_after:
+                                probe("pareto_iteration_abandoned")
+                                break
+                        return out_
+                    res = api(where, consume, allowed=(SolverReturnedUnknownResultError,))
             except SolverReturnedUnknownResultError:
-                faulted = True
+                # the oracle gave up in the middle of the search: the optimiser may report that,
+                # but the assertion stack must be as it was before the call
                 probe("optimiser_raised_unknown")
-                break
+                state["limit"] = None
+                observe(where + " (solver answered unknown)")
+                if solver.b_depth() != model.depth:
+                    raise Violation("C18:restore:depth", "after %s raised (unknown): back-end stack depth %d, user depth %d" %
+                                    (where, solver.b_depth(), model.depth))
+                trace.append(("unknown", mode))
+                continue
             except NonTermination:
                 raise Violation("C18:non-termination",
                                 "%s made more than %d solver calls (table has %d rows, %d models)" %
@@ -576,7 +595,12 @@ def execute(plan, tape):
                     got.append(v)
                 if len(set(got)) != len(got):
                     raise Violation("C18:pareto-duplicate", "%s yielded %s" % (where, got))
-                if set(got) != want:
+                if o.get("stop_after") and len(got) >= o["stop_after"] and len(want) >= len(got):
+                    # iteration abandoned: what was yielded so far belongs to the front
+                    if not set(got) <= want:
+                        raise Violation("C18:pareto-front", "%s yielded %s (then abandoned), true front %s for %s" %
+                                        (where, sorted(got), sorted(want), [_goal_str(g) for g in goals]))
+                elif set(got) != want:
                     raise Violation("C18:pareto-front", "%s yielded %s, true front %s for %s" %
                                     (where, sorted(got), sorted(want), [_goal_str(g) for g in goals]))
                 if len(want) >= 3:
